@@ -53,9 +53,10 @@ SHARED = [
 MUT_SDL = """
 input P { a: Int = 1 l: [Int] = [1, 2] q: P }
 scalar Tag
+enum Shade { GREY_1 GREY_2 GREY_3 GREY_4 DARK }
 input P2 { t: Tag n: Int = 3 }
 input P3 { t: String n: Int = 4 inner: P2 }
-type Query { f(p: P = {a: 5, l: [7]}, xs: [Int] = [1]): String e(t: Tag, n: Int, p: P, p2: P2, p3: P3, ps: [P2]): String }
+type Query { f(p: P = {a: 5, l: [7]}, xs: [Int] = [1]): String e(t: Tag, n: Int, p: P, p2: P2, p3: P3, ps: [P2], sh: Shade, shs: [Shade]): String }
 """
 # a fourth alphabet: the caller passes ONE variables object to every request of the history (undeclared extras are ignored, so this
 # is legal); coerced values and defaults of one request must not be written into it
@@ -70,8 +71,13 @@ VARS_ALPHABET = [
     ("object-as-P3", "query($r: P3) { e(p3: $r) }"),
     ("object-in-list-as-P2", "query($rs: [P2]) { e(ps: $rs) }"),
     ("nested-object-as-P3", "query($w: P3) { e(p3: $w) }"),
+    # refused requests whose message lists suggestions (4, 1 and 0 close names)
+    ("invalid-enum-many-close", "query($g: Shade) { e(sh: $g) }"),
+    ("invalid-enum-in-list", "query($gs: [Shade]) { e(shs: $gs) }"),
+    ("unknown-input-field", "query($u: P2) { e(p2: $u) }"),
 ]
-SHARED_VARS = {"t": "tg", "q": {"l": [5]}, "r": {"t": "tg"}, "rs": [{"t": "a"}, {"t": "b", "n": 1}], "w": {"t": "x", "inner": {"t": "y"}}}
+SHARED_VARS = {"t": "tg", "q": {"l": [5]}, "r": {"t": "tg"}, "rs": [{"t": "a"}, {"t": "b", "n": 1}], "w": {"t": "x", "inner": {"t": "y"}},
+               "g": "GREY", "gs": ["DARK", "GREY_", "DARC"], "u": {"tt": 1, "m": 2}}
 MUT_ALPHABET = [
     ("sdl-default", "{ f }", None),
     ("literal-object", "{ f(p: {a: 2}) }", None),
@@ -202,7 +208,7 @@ def run_shared_variables(tier, first=None):
         eng, name = make_mut_engine("disabled")
         ref[label] = norm(harness.run(eng.execute(text, variables=json.loads(json.dumps(SHARED_VARS)))))
         drop(name)
-        if '"errors": []' not in ref[label]:
+        if '"errors": []' not in ref[label] and not label.startswith(("invalid-", "unknown-")):
             out["machinery"].append("shared-variables request %s does not run: %s" % (label, ref[label][:300]))
     depth = 3 if tier == "quick" else 4
     for hist in itertools.product(range(len(VARS_ALPHABET)), repeat=depth):
